@@ -260,7 +260,7 @@ reg(Check("C08", "model_checking",
           "direct: cached topic state == stored rows at every state of the acl and msg searches; faults: every request of the alphabet "
           "from every state up to depth 2 with EVERY store call failing once; reload differential on message/deletion histories; "
           "at-load: 11 requests by sessions which are not attached (own / another user's permissions, private data, description, tags, "
-          "default access, unsubscribe, eviction, topic deletion, attach) on a group and 6 on a p2p topic, each handled completely at every store-call boundary and atomic "
+          "default access, unsubscribe, eviction, topic deletion, attach, disconnect of the loading connection) on a group, 6 on a p2p topic and 4 by the other user while a new p2p topic is being created, each handled completely at every store-call boundary and atomic "
           "operation of the load of the topic triggered by another user's {sub}: afterwards cached == stored and both requests are answered",
           ["canonical schedule only", "non-persistent fields (online, last seen, user agent) excluded"],
           text=XS_NOTE + "; plus exhaustive single-fault enumeration of every store call made by every request",
